@@ -700,6 +700,14 @@ static int _mod_register (mod_t mod, const char *name)
     }
 
     /*
+     * Continue with module loading only if personality acceptable
+     *  (tested first: a module that is not going to be loaded must not
+     *   evict an already registered module of the same type and name)
+     */
+    if (!(mod->pmod->personality & pdsh_personality()))
+        return -1;
+
+    /*
      *  Check for existing module of the same type and name
      *   Delete previous module if its priority is higher.
      */
@@ -712,12 +720,6 @@ static int _mod_register (mod_t mod, const char *name)
         else
             return (-1);
     }
-
-    /*
-     * Continue with module loading only if personality acceptable
-     */
-    if (!(mod->pmod->personality & pdsh_personality()))
-        return -1;
 
     list_prepend(module_list, mod);
 
